@@ -746,13 +746,16 @@ Lemma acct_turn wr w s0 q size a w1 t : plan_ok (w_plan w) -> 0 <= a_count a -> 
 Proof.
   intros Hp Hc Hs. unfold g_turn. change (-1 =? -1) with true. cbv iota.
   destruct (if q =? 0 then (w, s0, 0) else g_fopen w q (if wr then MAppend else MRead)) as [[wa so] e1] eqn:Eo.
-  assert (A1 : facct w wa (ind e1) /\ 0 <= e1 /\ w_ledger wa = w_ledger w).
+  assert (A1 : (facct w wa (ind e1) /\ 0 <= e1 /\ w_ledger wa = w_ledger w)
+               /\ open_judge (match so with Some _ => true | None => false end) e1 = e1).
   { destruct (q =? 0).
-    - inversion Eo; subst. split; [apply facct_refl|split; [lia|reflexivity]].
+    - inversion Eo; subst. split; [split; [apply facct_refl|split; [lia|reflexivity]]|destruct so; reflexivity].
     - destruct (acct_fopen _ _ _ _ _ _ Hp Eo) as (F & N & Z0 & Z1).
-      split; [exact F|split; [exact N|]].
-      destruct (Z.eq_dec e1 0) as [E|E]; [apply Z0 in E|apply Z1 in E]; tauto. }
-  destruct A1 as (F1 & N1 & L1).
+      split; [split; [exact F|split; [exact N|]]|].
+      + destruct (Z.eq_dec e1 0) as [E|E]; [apply Z0 in E|apply Z1 in E]; tauto.
+      + (* without errno noise a stream comes with errno 0: the judgement by the stream is errno itself *)
+        destruct so; [|reflexivity]. cbn. destruct (Z.eq_dec e1 0) as [E|E]; [auto|]. destruct (Z1 E) as [H _]. discriminate. }
+  destruct A1 as ((F1 & N1 & L1) & Hj). rewrite Hj.
   assert (Hpa : plan_ok (w_plan wa)) by (destruct F1 as [-> _]; exact Hp).
   destruct (e1 =? 0) eqn:E1; cbn [negb].
   2:{ intros E. inversion E; subst. cbn [t_errval]. auto. }
@@ -871,7 +874,7 @@ Lemma coll_agree wr g size args g' rs : g_coll wr g size args = Some (g', rs) ->
 Proof.
   unfold g_coll. destruct (g_turns wr (g_w g) (g_s0 g) 0 (-1) size args) as [[w1 ts]|]; [|discriminate].
   destruct (g_fopen w1 0 (if wr then MAppend else MRead)) as [[w2 so] e].
-  destruct (negb (e =? 0)); [discriminate|].
+  destruct so; [|discriminate].
   intros E. inversion E; subst. eexists. intros r Hin. apply in_map_iff in Hin. destruct Hin as (t & <- & _). reflexivity.
 Qed.
 
@@ -888,8 +891,9 @@ Proof.
   assert (Hp1 : plan_ok (w_plan w1)) by (destruct F1 as [-> _]; exact Hp).
   destruct (g_fopen w1 0 (if wr then MAppend else MRead)) as [[w2 so] e] eqn:Eo.
   destruct (acct_fopen _ _ _ _ _ _ Hp1 Eo) as (F2 & N2 & Z0 & Z1).
-  destruct (e =? 0) eqn:E0; cbn [negb]; [|discriminate].
-  apply Z.eqb_eq in E0. subst e. rewrite ind_0 in F2.
+  destruct so as [sr|]; [|discriminate].
+  assert (E0 : e = 0) by (destruct (Z.eq_dec e 0) as [E|E]; [exact E|destruct (Z1 E) as [H _]; discriminate]).
+  subst e. rewrite ind_0 in F2.
   intros E. inversion E; subst. clear E. cbn [g_w].
   fold (final_errval ts).
   assert (Hts : ts <> []) by (destruct ts; destruct args; cbn in Len; congruence).
@@ -1440,20 +1444,35 @@ Lemma noise_close_witness :
   /\ g_close CfgA 1 (g_noise (plan_noise 0 FCLOSE 0 e_EINTR) [1] MWrite 0) = None.
 Proof. split; reflexivity. Qed.
 
-(* the token-passing fallback: the fopen of a rank > 0 (`errval = errno`): every rank reports the class of the noise, rank 1
-   has transferred nothing and its stream stays open (w_open: 1 before, 2 afterwards); a complete fwrite that leaves errno set:
-   every rank reports the class of the noise although all data is in the file; the re-open of rank 0 (`if (errno != 0)
-   SC_ABORT`): the group aborts *)
+(* the token-passing fallback: a complete fwrite that leaves errno set (`errval = errno` after fread / fwrite): every rank
+   reports the class of the noise although all data is in the file (finding errno-noise:coll-transfer, stays) *)
 Lemma noise_coll_witness :
   let args := [mkA 0 1 [1]; mkA 1 1 [2]; mkA 2 1 [3]] in
   let g pl := mkG (mkW (File []) pl (fun _ _ => 0) 0 1 0) (Some (mkS MWrite 0)) true in
-  (match g_coll true (g (plan_noise 1 FOPEN 0 e_ESPIPE)) 1 args with
+  match g_coll true (g (plan_noise 2 FWRITE 0 e_EAGAIN)) 1 args with
+  | Some (g', rs) => map r_cls rs = [errclass CfgC e_EAGAIN; errclass CfgC e_EAGAIN; errclass CfgC e_EAGAIN]
+                     /\ errclass CfgC e_EAGAIN <> SUCCESS CfgC
+                     /\ map r_ocount rs = [1; 1; 1] /\ w_fail (g_w g') = 0 /\ w_open (g_w g') = 1 /\ content (g_w g') = [1; 2; 3]
+  | None => False end.
+Proof. vm_compute. repeat split; congruence. Qed.
+
+(* regression guard for the four fopen judgements of the fallback (repaired like F-C12j): the lines BEFORE the repair
+   (`g_coll_old`: `errval = errno` after the fopen of a rank > 0, `if (errno != 0) SC_ABORT` at the re-open of rank 0) on a fopen
+   that succeeds and leaves errno = ESPIPE (glibc, mode "ab" on a pipe): rank 1's noise makes every rank report its class, rank 1
+   transfers nothing and its stream stays open (w_open 1 -> 2); rank 0's noise at the re-open aborts the group.  The current code
+   (`g_coll`) on the same inputs: SUCCESS everywhere, all blocks written, one stream open *)
+Lemma coll_old_judge_refuted :
+  let args := [mkA 0 1 [1]; mkA 1 1 [2]; mkA 2 1 [3]] in
+  let g pl := mkG (mkW (File []) pl (fun _ _ => 0) 0 1 0) (Some (mkS MWrite 0)) true in
+  (match g_coll_old true (g (plan_noise 1 FOPEN 0 e_ESPIPE)) 1 args with
    | Some (g', rs) => map r_cls rs = [errclass CfgC e_ESPIPE; errclass CfgC e_ESPIPE; errclass CfgC e_ESPIPE]
+                      /\ errclass CfgC e_ESPIPE <> SUCCESS CfgC
                       /\ map r_ocount rs = [1; 0; 0] /\ w_fail (g_w g') = 0 /\ w_open (g_w g') = 2 /\ content (g_w g') = [1]
    | None => False end)
-  /\ (match g_coll true (g (plan_noise 2 FWRITE 0 e_EAGAIN)) 1 args with
-      | Some (g', rs) => map r_cls rs = [errclass CfgC e_EAGAIN; errclass CfgC e_EAGAIN; errclass CfgC e_EAGAIN]
-                         /\ map r_ocount rs = [1; 1; 1] /\ w_fail (g_w g') = 0 /\ w_open (g_w g') = 1 /\ content (g_w g') = [1; 2; 3]
-      | None => False end)
-  /\ g_coll true (g (plan_noise 0 FOPEN 0 e_ESPIPE)) 1 args = None.
-Proof. vm_compute. repeat split; reflexivity. Qed.
+  /\ g_coll_old true (g (plan_noise 0 FOPEN 0 e_ESPIPE)) 1 args = None
+  /\ (forall q, q = 0 \/ q = 1 ->
+      match g_coll true (g (plan_noise q FOPEN 0 e_ESPIPE)) 1 args with
+      | Some (g', rs) => map r_cls rs = [SUCCESS CfgC; SUCCESS CfgC; SUCCESS CfgC] /\ map r_ocount rs = [1; 1; 1]
+                         /\ w_fail (g_w g') = 0 /\ w_open (g_w g') = 1 /\ content (g_w g') = [1; 2; 3]
+      | None => False end).
+Proof. split; [|split]; [vm_compute; repeat split; congruence | reflexivity | intros q [-> | ->]; vm_compute; repeat split; reflexivity]. Qed.
